@@ -70,6 +70,44 @@ func checkC05(p *Prog, r *Report) {
 		tagsOK = tagsOK && ok
 	}
 
+	// CmdType.Data reports success only for a field that carries a function tag (untagged extension elements are skipped):
+	// otherwise a command holding only such an element yields a nil Function without an error
+	if cd := p.Method("model", "CmdType", "Data"); cd != nil {
+		ok := false
+		nSucc := 0
+		for _, b := range cd.Blocks {
+			ret, isRet := b.Instrs[len(b.Instrs)-1].(*ssa.Return)
+			if !isRet || len(ret.Results) != 2 || !isNilConst(ret.Results[1]) {
+				continue
+			}
+			nSucc++
+			tagged := false
+			for _, g := range Guards(b) {
+				if ex, isEx := g.Cond.(*ssa.Extract); isEx && ex.Index == 1 && g.Val {
+					if lk, isLk := ex.Tuple.(*ssa.Lookup); isLk && lk.CommaOk {
+						tagged = true
+					}
+				}
+				if bo, isB := g.Cond.(*ssa.BinOp); isB {
+					if c, isC := bo.X.(*ssa.Call); isC && builtinName(&c.Call) == "len" {
+						if k, isK := constInt(bo.Y); isK && k == 0 && ((bo.Op == token.GTR && g.Val) || (bo.Op == token.EQL && !g.Val) || (bo.Op == token.NEQ && g.Val)) {
+							tagged = true
+						}
+					}
+				}
+			}
+			ok = tagged
+			if !tagged {
+				break
+			}
+		}
+		r.Check("R4", "model.CmdType.Data|success-only-for-tagged-field", ok && nSucc > 0, p.Pos(cd.Pos()), "every successful return is reached only when the field has a function tag (comma-ok look-up found it, or the tag is non-empty)")
+		tagsOK = tagsOK && ok
+	} else {
+		r.Undecided("R4", "anchor:model.CmdType.Data", "", "method not found")
+		tagsOK = false
+	}
+
 	w := RunWireNil(p, root, tagsOK)
 	r.Stat("functions in the synchronous inbound call tree", len(w.reach))
 	r.Stat("panic-prone sites on wire data", w.Total)
